@@ -244,3 +244,67 @@ def limit_transparency(chk, rng, per_overload, prefix="c08", sweeps=None):
             passed_at.setdefault(key, v)
     if cases:
         chk.sample({"lib-limits": cases[0][2], "limits_swept": sweeps})
+
+
+# ------------------------------------------------------------------------------------------------ generator / sequence pipelines
+
+SOURCES = ["count().to_generator()", "range(40).to_generator()", "[3, 1, 4, 1, 5, 9, 2, 6, 5, 3].to_generator()",
+           "successors(0, (x: int)->{x + 2})", "count().to_generator().filter((x: int)->{x % 7 == 3})",
+           "range(3, 60, 3).to_generator().map((x: int)->{x - 1})"]
+ADAPTORS = [".map((x: int)->{x + 1})", ".filter((x: int)->{x % 3 != 0})", ".skip(K)", ".take(KK)", ".take_while((x: int)->{x < 90})",
+            ".skip_until((x: int)->{x > K})", ".add([7, 8].to_generator())", ".zip(count().to_generator()).map((t: (int, int))->{t::item0 + t::item1})",
+            ".aggregate(0, (a: int, b: int)->{a + b})", ".windows(2).map((w: Sequence<int>)->{w[0] + w[1]})", ".distinct()",
+            ".with_count().map((t: (int, int))->{t::item0})", ".enumerate().map((t: (int, int))->{t::item0 * 100 + t::item1})",
+            ".chunks(2).map((c: Sequence<int>)->{c[0]})"]
+CONSUMERS = [".take(6).to_array()", ".get(K)", ".nth(1, (x: int)->{x % 2 == 0})", ".take(8).len()", ".take(5).last()",
+             ".take(6).reduce(0, (a: int, b: int)->{a + b})", ".take(5).sum()", ".take(4).join(\",\")".replace(".join", ".map((x: int)->{x.to_str()}).join")]
+
+
+def pipeline_transparency(chk, rng, n, prefix="c06"):
+    """Pipelines source.adaptor{1..3}.consumer over generators with user callbacks: under every call / search limit the outcome is
+    that limit's violation or exactly the unlimited outcome — an adaptor or consumer that swallows a violation raised while it
+    pulls (and skips, filters, buffers …) elements produces a third outcome."""
+    cases = []
+    for _ in range(n):
+        e = rng.choice(SOURCES)
+        for _ in range(rng.choice([1, 2, 2, 3])):
+            e += rng.choice(ADAPTORS).replace("KK", str(rng.choice([3, 6, 12]))).replace("K", str(rng.choice([1, 2, 5, 7])))
+        e += rng.choice(CONSUMERS).replace("K", str(rng.choice([0, 2, 5])))
+        cases.append(f"let r = {e};\nlet h = is_error({e});\n")
+    base = _run_cases([(src, ["r", "h"]) for src in cases], BASE_LIMITS)
+    todo = []
+    for src, b in zip(cases, base):
+        chk.evaluations += 1
+        if b["outcome"] != "ok":
+            chk.count(f"{prefix}:pipeline:baseline-{b['outcome']}")
+            continue
+        for lim, values in (("search", [1, 2, 3, 4, 6, 8, 11, 15, 20, 30, 50]), ("ud_calls", [1, 2, 3, 5, 8, 12, 20, 40])):
+            for v in values:
+                todo.append((src, lim, v, b))
+    viol_name = {"ud_calls": "MaximumUDCall", "search": "MaximumSearch"}
+    reqs = [{"op": "run", "src": src, "get": ["r", "h"], "limits": dict(BASE_LIMITS, **{lim: v})} for (src, lim, v, _) in todo]
+    passed_at = {}
+    for (src, lim, v, b), r in zip(todo, run_harness(reqs, per_req_timeout=20.0)):
+        chk.evaluations += 1
+        chk.count(f"{prefix}:pipeline:{lim}")
+        if "panic" in r or "abort" in r or "hang" in r or r.get("compile") != "ok":
+            chk.count(f"{prefix}:pipeline:crash-skipped")
+            continue
+        ops = "".join(re.findall(r"\.([a-z_]+)\(", src.split("\n")[0]))
+        key_ops = ".".join(sorted(set(re.findall(r"\.([a-z_]+)\(", src.split("\n")[0]))))
+        replay = {"src": src, "get": ["r", "h"], "limits": dict(BASE_LIMITS, **{lim: v}), "expected": {"either": ["viol " + viol_name[lim], b["vals"]]}}
+        chk.nontrivial.add(src + lim)
+        if r.get("inst") != "ok":
+            if r["inst"]["viol"] != viol_name[lim]:
+                chk.violation(f"{prefix}:pipeline:{lim}:other-violation:{key_ops}", f"pipeline under {lim}={v}: violation {r['inst']['viol']}: {src.splitlines()[0]}", replay)
+            if (src, lim) in passed_at and passed_at[(src, lim)] < v:
+                chk.violation(f"{prefix}:pipeline:{lim}:not-monotone:{key_ops}", f"pipeline passes under {lim}={passed_at[(src, lim)]} but violates under {lim}={v}: {src.splitlines()[0]}", replay)
+            continue
+        if {k: order_free(x) for k, x in r["vals"].items()} != {k: order_free(x) for k, x in b["vals"].items()}:
+            chk.violation(f"{prefix}:pipeline:{lim}:changed-result:{key_ops}",
+                          f"pipeline under {lim}={v} ends neither in {viol_name[lim]} nor in the unlimited outcome (a violation raised while elements were pulled was swallowed or turned "
+                          f"into a value): {src.splitlines()[0]} gives {json.dumps(r['vals'])[:200]}, unlimited {json.dumps(b['vals'])[:200]}", dict(replay, got=r["vals"]))
+        else:
+            passed_at.setdefault((src, lim), v)
+    if cases:
+        chk.sample({"pipeline": cases[0]})
